@@ -213,6 +213,15 @@ def run(ctx):
         from checks import sched
         sched.run_parts(ctx)
 
+    # The NFSv4.0 / NFSv4.1 servers' locks are probed by their drivers after
+    # every request (verdict C14:server-lock-left-held-after-a-request-returned
+    # of NFS40Trace.tla / NFS41Trace.tla); that family is validated once per
+    # binary/specs/seed/tier and shared with C18-C20.
+    # (VERIF_C14_SKIP_NFS=1 skips it; only for mutation runs of other packages.)
+    if os.environ.get("VERIF_C14_SKIP_NFS") != "1":
+        from checks import nfs
+        nfs.run_parts(ctx)
+
     return vlib.finish(
         ctx,
         rule=("TLC explores LockPile.tla exhaustively (threads x TryLockers, requests in any order, pile extension, "
